@@ -23,7 +23,8 @@ PROP = dict(
           "checked like a message), delivered at once or in 1/3/7/1000-byte pieces; a silent peer: one case per worker with a pause of 5.5-6.5 s between two fragments (also with a ping "
           "before the pause), between two messages or inside a frame while the receiver is in a blocking receive(); EVERY receive() result of every part (message, empty result, "
           "close reason) is read through every accessor of WebSocketMsg: length(), ByteArray(m), String(m), bool(m)/!m and the C-string view operator*: same bytes, "
-          "terminating NUL at [length()] (ASan sees the over-read of an exactly full array), strlen == length for NUL-free payloads; EVERY length "
+          "terminating NUL at [length()] (ASan sees the over-read of an exactly full array), strlen == length for NUL-free payloads, String(m) with the full length and bytes for EVERY payload; binary payloads carry a 0x00 as first / last / middle byte in 3 of 4 seeds and "
+          "the raw peer also sends TEXT frames with embedded 0x00 bytes; EVERY length "
           "1..300 and 65495..65576 x roles x masked x 1-4 frames; small generated scripts cut at EVERY byte offset (messages complete before the cut "
           "must arrive intact and in order; what is delivered of the interrupted message must be a prefix of it). "
           "(out) bytes written by send() on a socketpair decoded by the reference codec: FIN, opcode, declared length, minimal length form, mask bit "
